@@ -57,6 +57,7 @@ package nodes
 //@   stream 1 step IN buffered: lastIn().EventTime.ns != ZEROT() ==> len(OUT) == old(len(OUT)) && thas(records.tree, lastIn().EventTime.ns) && forallK(k, k != lastIn().EventTime.ns ==> thas(records.tree, k) == old(thas(records.tree, k)))
 //@   stream 1 step IN nometa: len(OUTM) == old(len(OUTM))
 //@   stream 1 step INM forward: stepErr == nil ==> len(OUTM) == old(len(OUTM)) + 1 && lastOutM() == lastInM()
+//@   stream 1 step INM order: stepErr == nil ==> outAtLastMeta() == len(OUT)
 //@   stream 1 step INM released: stepErr == nil && lastInM().Type == 0 ==> forallK(k, thas(records.tree, k) ==> k > lastInM().Watermark.ns)
 //@   stream 1 step INM kept: forallK(k, k > lastInM().Watermark.ns || lastInM().Type != 0 ==> thas(records.tree, k) == old(thas(records.tree, k)))
 //@   ensures flush: result == nil ==> forallK(k, !thas(records.tree, k))
